@@ -73,6 +73,11 @@ SCENARIOS = [
     ["create B", "declare A", "create B", "create D", "evaluate", "query A"],
     ["create B", "create B", "declare B", "drop oldest", "evaluate"],
     ["declare A", "create A", "create F", "evaluate", "create B", "evaluate"],
+    ["declare A", "evaluate", "create A", "evaluate", "create B", "evaluate"],          # first evaluated while no instance exists
+    ["declare B", "evaluate", "create A", "evaluate", "create D", "evaluate", "drop newest", "evaluate"],
+    ["declare A", "clear", "create A", "create B", "evaluate"],                             # the graph is re-created between let() and the first evaluation
+    ["create V", "declare-with-condition A", "create A", "evaluate", "create B", "create A", "evaluate", "drop oldest", "evaluate"],
+    ["declare-with-condition B", "evaluate", "create V", "create B", "evaluate", "create D", "evaluate"],
     ["clear-no-recreate", "create A", "create B", "query A"],
     ["create A", "clear-no-recreate", "create B", "create B", "query A", "query B"],
 ]
@@ -113,17 +118,32 @@ def run(history):
         elif op == "clear-no-recreate":
             SymbolGraph().clear()       # the next instance creation has to bring the graph back by itself
             census = []
+        elif op.startswith("declare-with-condition"):
+            # the selected variable occurs in NO condition; the condition is over another domain-less variable
+            declared_cls = classes[op.split()[1]]
+            other = let(V, None)
+            declared = an(entity(let(declared_cls, None), other.v >= 0))
+            declared_needs = V
         elif op.startswith("declare"):
             declared_cls = classes[op.split()[1]]
             declared = an(entity(let(declared_cls, None)))        # evaluated later: the range is taken at EVALUATION time
+            declared_needs = None
         elif op == "evaluate":
             gc.collect()
-            want = [r() for r, c in census if r() is not None and issubclass(c, declared_cls)]
             st, got = guarded(lambda: list(declared.evaluate()))
+            # the census is taken AFTER the evaluation: an instance the user dropped may have been kept alive by what the earlier
+            # evaluation of this query object cached, and dies when the new evaluation starts (the results only hold instances that
+            # were alive anyway)
+            gc.collect()
+            want = [r() for r, c in census if r() is not None and issubclass(c, declared_cls)]
+            if declared_needs is not None and not [1 for r, c in census if r() is not None and issubclass(c, declared_needs)]:
+                want = []
             if st == "exc":
                 if not want and isinstance(got, ValueError):
                     continue
                 return f"step {step} {op}: raised {type(got).__name__}: {got}", "raised"
+            if declared_needs is not None:
+                got = list({id(o_): o_ for o_ in got}.values())          # one row per (selected, other) pair: compare the selected instances
             if sorted(map(id, got)) != sorted(map(id, want)):
                 kind = "duplicate" if len(got) > len(set(map(id, got))) else ("missing" if len(got) < len(want) else "wrong")
                 return f"step {step} evaluate (declared earlier): got {got!r}, census {want!r}", kind + "-declared-earlier"
